@@ -258,6 +258,14 @@ func c11W1(ctx *core.Ctx, out *core.Out) {
 			fail("partial-frame", fmt.Sprintf("%s side write log ends with %d loose bytes although the connection was never cut", side.name, tail), nil)
 			return
 		}
+		// nobody in this scenario sets a read deadline: the write side (WriteControl callers, the
+		// handlers' replies) has no business arming one on the transport
+		for _, op := range ep.nc.Ops() {
+			if (op.Kind == xport.OpSetDeadline || op.Kind == xport.OpSetReadDeadline) && !op.T.IsZero() {
+				fail("write-side-call-armed-the-read-deadline", fmt.Sprintf("%s side: %s(%s) reached the transport although the application never set a read deadline: a reader blocked past it fails for good", side.name, op.Kind, dlText(op.T)), nil)
+				return
+			}
+		}
 		// the deadline armed on the transport at every write of an own frame
 		nchk, rep := ep.armedDeadlines(frames, msgs, ep.nc.WrittenLen()-tail)
 		out.Count("deadline_pairs_checked", int64(nchk))
